@@ -16,19 +16,31 @@ pub fn window(n: u16) -> Vec<u16> {
 /// Hand-built generic NACK FCI (pid, blp): the decoded set must be RFC 4585's, re-encoding must
 /// preserve the set, and the reference must read the re-encoding as the same set.
 pub fn check_nack_wire(pid: u16, blp: u16) -> Out {
+    check_nack_wire_n(&[(pid, blp)])
+}
+
+/// The same with several FCI entries (their ranges may overlap or repeat: the meaning is the
+/// union of the named sequence numbers).
+pub fn check_nack_wire_n(pairs: &[(u16, u16)]) -> Out {
     let mut o = Out::default();
-    let mut b = vec![0x81, 205, 0, 3, 0, 0, 0, 5, 0, 0, 0, 6];
-    b.extend_from_slice(&pid.to_be_bytes());
-    b.extend_from_slice(&blp.to_be_bytes());
+    let words = 2 + pairs.len() as u16;
+    let mut b = vec![0x81, 205, (words >> 8) as u8, words as u8, 0, 0, 0, 5, 0, 0, 0, 6];
     let mut want: BTreeSet<u16> = BTreeSet::new();
-    want.insert(pid);
-    for i in 0..16u16 {
-        if blp >> i & 1 == 1 {
-            want.insert(pid.wrapping_add(i + 1));
+    let mut wraps = false;
+    for &(pid, blp) in pairs {
+        b.extend_from_slice(&pid.to_be_bytes());
+        b.extend_from_slice(&blp.to_be_bytes());
+        want.insert(pid);
+        for i in 0..16u16 {
+            if blp >> i & 1 == 1 {
+                want.insert(pid.wrapping_add(i + 1));
+                wraps |= pid.wrapping_add(i + 1) < pid;
+            }
         }
     }
+    let (pid, blp) = pairs.first().copied().unwrap_or((0, 0));
     let sig = "rtcp.nack.wire";
-    let wraps = want.iter().any(|s| *s < pid);
+    let single = pairs.len() == 1;
     match parse_rtcp_packets(&b, None) {
         Ok(p) => {
             o.accepted = true;
@@ -38,7 +50,7 @@ pub fn check_nack_wire(pid: u16, blp: u16) -> Out {
                     if got != want || n.sender_ssrc != 5 || n.media_ssrc != 6 {
                         o.fail(format!("{sig};set-mismatch"), format!("pid {pid} blp {blp:#06x}: expected {want:?}, parsed {got:?}"));
                     }
-                    if n.lost_packets.len() != got.len() {
+                    if single && n.lost_packets.len() != got.len() {
                         o.fail(format!("{sig};duplicates"), format!("pid {pid} blp {blp:#06x}: parsed list has duplicates {:?}", n.lost_packets));
                     }
                     match marshal_rtcp_packets(&p) {
@@ -78,7 +90,11 @@ pub fn check_nack_wire(pid: u16, blp: u16) -> Out {
         }
         Err(e) => o.fail(format!("{sig};parse-rejected"), format!("canonical NACK rejected: {e:?}")),
     }
-    o.class = format!("nackwire:pid={pid},bits={},wraps={}:{}", blp.count_ones(), wraps as u8, if o.fails.is_empty() { "ok" } else { "violation" });
+    if single {
+        o.class = format!("nackwire:pid={pid},bits={},wraps={}:{}", blp.count_ones(), wraps as u8, if o.fails.is_empty() { "ok" } else { "violation" });
+    } else {
+        o.class = format!("nackwire{}:set={},wraps={}:{}", pairs.len(), want.len(), wraps as u8, if o.fails.is_empty() { "ok" } else { "violation" });
+    }
     o
 }
 
